@@ -16,7 +16,7 @@ GOOD = ["Aa ::= INTEGER (0..5)", "Bb ::= SEQUENCE { x BOOLEAN, y Aa OPTIONAL }",
 BAD = {'real': "{n} ::= REAL", 'videotex': "{n} ::= VideotexString", 'inverted': "{n} ::= INTEGER (10..5)", 'setof-real': "{n} ::= SET OF REAL",
        'macro': "{N} MACRO ::= BEGIN TYPE NOTATION ::= empty VALUE NOTATION ::= empty END", 'time': "{n} ::= TIME", 'choice-real': "{n} ::= CHOICE {{ r REAL }}"}
 NAMES = ['Aa', 'Bb', 'cc', 'Dd']
-MANGLED = {'Aa': 'Aa', 'Bb': 'Bb', 'cc': 'CC', 'Dd': 'Dd'}
+MANGLED = {'Aa': 'Aa', 'Bb': 'Bb', 'cc': 'CC', 'Dd': 'Dd', 'Zz': 'Zz'}
 
 
 def jobs(tier, seed):
@@ -101,6 +101,22 @@ def shapes(tier):
                 base_defs = [d.replace('y Aa OPTIONAL', 'y NULL OPTIONAL') if (0 in pos) else d for i, d in enumerate(GOOD) if i not in pos]
                 base = f"M DEFINITIONS AUTOMATIC TAGS ::= BEGIN {' '.join(base_defs)} END"
                 out.append((f"C10 replaced[{','.join(f'{NAMES[p]}:{kd}' for p, kd in zip(pos, ks))}]", text, {'keep': keep, 'replaced': [NAMES[p] for p in pos], 'base': base, 'kinds': ks}))
+    # modules in which EVERY definition is unsupported (alone and next to a healthy module): nothing is generated for
+    # them, so each definition must be the subject of a warning
+    allbad = [('real',), ('videotex',), ('time',), ('inverted',), ('real', 'videotex'), ('setof-real', 'time'), ('real', 'inverted'), ('macro',), ('choice-real', 'real', 'videotex')]
+    if tier == 'quick':
+        allbad = allbad[:2] + allbad[4:7] + allbad[8:]
+    for ks in allbad:
+        nms = ['Aa', 'Bb', 'Dd'][:len(ks)]
+        defs = [BAD[kd].format(n=nm, N=nm.upper()) for nm, kd in zip(nms, ks)]
+        for other in (False, True):
+            text = f"M DEFINITIONS AUTOMATIC TAGS ::= BEGIN {' '.join(defs)} END"
+            base = None
+            if other:
+                base = "Good DEFINITIONS AUTOMATIC TAGS ::= BEGIN Zz ::= SEQUENCE { x BOOLEAN } END"
+                text = base + "\n" + text
+            out.append((f"C10 every definition unsupported[{','.join(ks)}]{' next to a healthy module' if other else ''}", text,
+                        {'keep': ['Zz'] if other else [], 'replaced': nms, 'base': base, 'kinds': ks}))
     return out
 
 
@@ -120,6 +136,8 @@ def judge_factory(runner):
         if unaccounted > 0:
             fails.append(('silent-loss', f"{unaccounted} replaced definition(s) are neither generated nor reported by a warning ({nwarn} warnings)"))
         # locality: untouched definitions are identical to the module without the replaced ones
+        if info['base'] is None:
+            BASE_CACHE[None] = None
         if info['base'] not in BASE_CACHE:
             b = runner.compile(info['base'])
             BASE_CACHE[info['base']] = {i.name: tokproj.safe_str(tokproj.TS(i.raw)) for i in tokproj.find_items(tokproj.project_text(b['generated'])) if i.kind != 'mod'} if b.get('ok') else None
@@ -129,7 +147,7 @@ def judge_factory(runner):
             for n, txt in base.items():
                 if n in allits and allits[n] != txt:
                     fails.append(('locality', f"the bindings of {n} change when other definitions are unsupported"))
-                elif n not in allits and n not in ('m',):
+                elif n not in allits and n not in ('m', 'good'):
                     fails.append(('locality', f"{n} disappears when other definitions are unsupported"))
         if chk is not None:
             chk.res.obligations += 1
